@@ -43,6 +43,8 @@ type Folder struct {
 	Stop     func(in ssa.Instruction) bool
 	// OnCall observes every evaluated call with its folded arguments.
 	OnCall   func(call *ssa.Call, args []cval)
+	// CallHook may supply the result of a call from its folded arguments.
+	CallHook func(call *ssa.Call, args []cval) (cval, bool)
 	MaxDepth int
 	Steps    int
 	Budget   int
@@ -404,12 +406,19 @@ func (f *Folder) call(env fenv, x *ssa.Call, depth int) cval {
 		return a
 	}
 	cc := x.Common()
-	if f.OnCall != nil {
+	if f.OnCall != nil || f.CallHook != nil {
 		var as []cval
 		for _, a := range cc.Args {
 			as = append(as, f.val(env, a))
 		}
-		f.OnCall(x, as)
+		if f.OnCall != nil {
+			f.OnCall(x, as)
+		}
+		if f.CallHook != nil {
+			if r, ok := f.CallHook(x, as); ok {
+				return r
+			}
+		}
 	}
 	if b, ok := cc.Value.(*ssa.Builtin); ok {
 		_ = b
